@@ -3,6 +3,7 @@ package checks
 import (
 	"fmt"
 	"os"
+	"sync"
 	"time"
 
 	"github.com/bartossh/Computantis/src/accountant"
@@ -136,6 +137,111 @@ func c10Sync(st *stats) (failed bool) {
 					}
 				}
 				st.label("sync:rule-breaking-stream-marked-loaded")
+			}
+		}
+	}
+	// requests arriving WHILE the joining node is still reading the stream: whatever they are answered, no
+	// rule-breaking vertex may be in the ledger once the node is in service
+	{
+		name := fmt.Sprintf("c10-joiner-midsync-%d", shard())
+		joinKey := ref.NewKey(name, []byte(w.Cfg.Seed+"/"+name))
+		tgt, err := w.NewDetachedNode(name)
+		if err == nil {
+			ch := make(chan *accountant.Vertex)
+			loadDone := make(chan struct{})
+			var cause error
+			go func() {
+				defer close(loadDone)
+				tgt.Book.LoadDag(func(e error) { cause = e }, ch)
+			}()
+			feed := func(vs []*accountant.Vertex) bool {
+				for _, v := range vs {
+					c := sim.CloneVertex(v)
+					select {
+					case ch <- &c:
+					case <-loadDone:
+						return false
+					case <-time.After(sim.CallTimeout):
+						return false
+					}
+				}
+				return true
+			}
+			half := len(stream) / 2
+			ok := feed(stream[:half])
+			tipV := w.Arch.V[tips[0]]
+			mkTx := func(issuer *ref.Key, note string) transaction.Transaction {
+				return ref.MakeTx("c10 midsync "+note, spice.New(1, 0), []byte("x"), w.Wallets[2].Addr, issuer, tipV.CreatedAt.Add(3*time.Second))
+			}
+			var reqs sync.WaitGroup
+			results := make([]string, 4)
+			issue := func(i int, f func() error) {
+				reqs.Add(1)
+				go func() {
+					defer reqs.Done()
+					defer func() { recover() }()
+					if e := f(); e != nil {
+						results[i] = e.Error()
+					} else {
+						results[i] = "accepted"
+					}
+				}()
+			}
+			if ok {
+				t1 := mkTx(genesisWallet, "propose-genesis-issuer")
+				issue(0, func() error { _, e := tgt.Book.CreateLeaf(bg, &t1); return e })
+				t2 := mkTx(genesisWallet, "gossip-genesis-issuer")
+				v2 := ref.Seal(t2, tipV.Hash, tipV.Hash, tipV.Weight+1, tipV.CreatedAt.Add(4*time.Second), rogue)
+				issue(1, func() error { return tgt.Book.AddLeaf(bg, &v2) })
+				t3 := mkTx(rogue, "gossip-self-sealed")
+				v3 := ref.Seal(t3, tipV.Hash, tipV.Hash, tipV.Weight+1, tipV.CreatedAt.Add(5*time.Second), rogue)
+				issue(2, func() error { return tgt.Book.AddLeaf(bg, &v3) })
+				t4 := mkTx(joinKey, "propose-own-wallet")
+				issue(3, func() error { _, e := tgt.Book.CreateLeaf(bg, &t4); return e })
+				time.Sleep(time.Duration(5+shard()%4*10) * time.Millisecond)
+				feed(stream[half:])
+			}
+			close(ch)
+			select {
+			case <-loadDone:
+			case <-time.After(sim.CallTimeout):
+			}
+			waited := make(chan struct{})
+			go func() { reqs.Wait(); close(waited) }()
+			select {
+			case <-waited:
+			case <-time.After(sim.CallTimeout):
+				st.label("sync:mid-sync-requests-still-pending(inconclusive)")
+			}
+			st.eval(1)
+			st.enumNontrivial(1)
+			st.label("sync:requests-while-the-stream-is-being-read")
+			for _, r := range results {
+				if r == "accepted" {
+					st.label("sync:mid-sync-request-accepted")
+				}
+			}
+			if tgt.Book.DagLoaded() {
+				if raw, err := tgt.Book.VerifSnapshot(); err == nil {
+					for i := range raw.Live {
+						v := &raw.Live[i]
+						if v.Hash == w.Genesis.Hash {
+							continue
+						}
+						why := ""
+						switch {
+						case v.Transaction.IssuerAddress == v.SignerPublicAddress:
+							why = "is sealed by its own issuer"
+						case v.Transaction.IssuerAddress == genesisWallet.Addr:
+							why = "is issued by the genesis wallet"
+						}
+						if why != "" {
+							if st.reportOnce("mid-sync-request-sealed-rule-breaking-vertex", fmt.Sprintf("requests sent while the joining node was still reading its peer's stream (answers: %v; load cause %v): afterwards its ledger contains vertex %x (%q) which %s", results, cause, v.Hash[:4], v.Transaction.Subject, why), map[string]string{"kind": "mid-sync"}) {
+								failed = true
+							}
+						}
+					}
+				}
 			}
 		}
 	}
